@@ -447,7 +447,78 @@ def rule_one_stream(ctx):
               ctx.loc(bad[0], bad[1]) if bad else ctx.loc(b0))
 
 
+def rule_header_block_frames(ctx):
+    """R2: a header block is the HEADERS frame and every CONTINUATION frame that follows it (RFC 7540 6.10): build_stream hands the
+    payload of both frame types to the header decoder.  The observer's HPACK decoder is created and asked to decode, nothing else: its
+    table size follows the updates signalled inside the header blocks (the decoder handles those itself) - never a SETTINGS value, which
+    speaks for the *other* direction"""
+    P = ctx.program
+    b = P.method1(H2, "build_stream")
+    S = T.Slicer(b, P)
+    calls = [(blk, t) for blk, t in b.calls() if callee_of(t).endswith("parse_headers_payload")]
+    if not calls:
+        ctx.cannot("R2", "build_stream:header-frames", "no parse_headers_payload call in build_stream", ctx.loc(b))
+    for blk, t in calls:
+        types = set()
+        for c in Q.canon_conds(P, T.dom_conds(b, S, blk)):
+            if c[0] in ("variant", "variant_in") and c[3] is True and any(x[0] == "field" and x[2] == "frame_type" for x in T.walk(c[1])):
+                types |= set(c[2]) if isinstance(c[2], tuple) else {c[2]}
+        ctx.check(types == {"Headers", "Continuation"}, "R2", "build_stream:header-frames", "HEADERS and CONTINUATION payloads are decoded",
+                  "build_stream decodes the payload of %s frames only: a header block continued in CONTINUATION frames loses the fields carried there (or the "
+                  "request is rejected for a missing pseudo-header)" % sorted(types), ctx.loc(b, blk))
+    other = []
+    for hb in P.bodies.values():
+        if hb.crate != "huginn_net_http":
+            continue
+        for blk, t in hb.calls():
+            nm = callee_of(t)
+            if nm.startswith(("hpack_patched::", "hpack::")) and "Decoder" in nm and nm.rsplit("::", 1)[-1] not in ("new", "decode", "default"):
+                other.append((hb, blk, nm))
+    ctx.check(not other, "R2", "hpack-decoder:only-new-and-decode", "the HPACK decoder is only created and asked to decode",
+              "%s is called on the observer's HPACK decoder: its dynamic table is then sized / altered by something other than the header blocks themselves, and "
+              "entries the sender still refers to are evicted (decoding fails, the message is not reported)" % (T.short(other[0][2]) if other else ""),
+              ctx.loc(other[0][0], other[0][1]) if other else None)
+
+
+def rule_preface_is_prefix(ctx):
+    """R4: a byte stream is HTTP/2 when it *starts* with the 24-byte client preface (RFC 7540 3.5).  `is_http2_traffic` is the test
+    that routes a request to the HTTP/2 or the HTTP/1 decoder: it must look at the beginning of the data only - a search anywhere in
+    the bytes makes the routing of an HTTP/1 head depend on what its body happens to contain"""
+    P = ctx.program
+    b = P.fn("http2_parser::is_http2_traffic")
+    rets = TB.return_sites(b, P)
+    ok = False
+    why = "no return value"
+    for (rb, j, term, _c) in rets:
+        t = T.strip(term)
+        pref = any(x[0] == "const" and ((x[2] or "").endswith("HTTP2_CONNECTION_PREFACE") or x[1] == b"PRI * HTTP/2.0\r\n\r\nSM\r\n\r\n") for x in T.walk(t))
+        anywhere = [T.short(x[1]) for x in T.calls_in(t) if x[1].rsplit("::", 1)[-1] in ("windows", "contains", "find", "position", "any", "ends_with", "rfind")]
+        if t[0] == "call" and t[1].endswith("::starts_with") and pref and not anywhere and len(rets) == 1:
+            p0 = T.strip(t[2][0])
+            while p0[0] in ("ref", "deref"):
+                p0 = T.strip(p0[2] if p0[0] == "ref" else p0[1])
+            ok = p0[0] == "param"
+            why = "tests %s" % T.pp(p0)[:40]
+        elif T.has_call(t, "::strip_prefix") and pref and not anywhere and len(rets) == 1:
+            ok = True           # `data.strip_prefix(PREFACE).is_some()`: the same prefix test
+        else:
+            why = "decides by %s" % (T.pp(t)[:80])
+    ctx.check(ok, "R4", "is_http2_traffic:prefix", "data.starts_with(HTTP2_CONNECTION_PREFACE)",
+              "is_http2_traffic does not test that the data *starts* with the connection preface (%s): a request whose body contains the preface bytes is taken for "
+              "HTTP/2 and its HTTP/1 head is never reported" % why, ctx.loc(b))
+
+
+def rule_language(ctx):
+    """the language reported for an HTTP/2 request is chosen by the code shared with HTTP/1 (C05.R5)"""
+    from ..engine import report as R
+    from . import C05
+    C05.rule_q_default(R.Retag(ctx, "C05."))
+
+
 def run(ctx):
+    rule_language(ctx)
+    rule_header_block_frames(ctx)
+    rule_preface_is_prefix(ctx)
     rule_lookup_keys_folded(ctx)
     rule_one_stream(ctx)
     rule_narrowing(ctx)
